@@ -550,3 +550,45 @@ Proof.
               (init_estate_wf chunk Hc) (dinv_init chunk) Hrun (le_n _)) as (dec' & Hl & _).
   unfold ref_decode, ref_decode_from. rewrite Hl. reflexivity.
 Qed.
+
+(* ------------------------------------------------------------------ 7.1.6 writer side *)
+Definition sub_ok (mi : smsg * N) : Prop :=
+  g_type (fst mi) < 256 /\ g_ts (fst mi) < two32 /\ lenN (g_payload (fst mi)) < 16777216 /\ snd mi < 16777216.
+
+Definition agg_norm (csid msid ts first_ts : N) (mi : smsg * N) : smsg :=
+  mk_smsg csid (g_type (fst mi)) msid ((ts + g_ts (fst mi) + two32 - first_ts) mod two32) (g_payload (fst mi)).
+
+Lemma spec_split_agg_body : forall subs fuel csid msid ts first,
+  Forall sub_ok subs -> (length subs <= fuel)%nat ->
+  spec_split_agg fuel csid msid ts first (agg_body subs)
+  = Some (map (agg_norm csid msid ts
+                 (match first with Some x => x | None => match subs with (m, _) :: _ => g_ts m | [] => 0 end end)) subs).
+Proof.
+  induction subs as [|[m id] subs IH]; intros fuel csid msid ts first Hok Hfuel.
+  - destruct fuel; reflexivity.
+  - inversion Hok as [|? ? (Ht & Hts & Hl & Hid) Hok']; subst. cbn [fst snd] in *.
+    destruct fuel as [|f]; [cbn in Hfuel; lia|].
+    cbn [agg_body]. unfold agg_sub. unfold put24. rewrite <- !app_assoc. cbn [app].
+    cbn [spec_split_agg].
+    rewrite (be24_put (lenN (g_payload m))) by exact Hl.
+    assert (g_ts m / 16777216 * 16777216 + be24 (g_ts m mod 16777216 / 65536) ((g_ts m mod 16777216 / 256) mod 256) (g_ts m mod 16777216 mod 256) = g_ts m) as Hsub.
+    { unfold be24. lia. }
+    rewrite Hsub.
+    rewrite takeN_app. unfold put32. cbn [app].
+    rewrite (IH f csid msid ts (Some match first with Some x => x | None => g_ts m end) Hok' ltac:(cbn in Hfuel; lia)).
+    cbn [map]. unfold agg_norm. cbn [fst]. destruct first; reflexivity.
+Qed.
+
+(* an aggregate message built from sub-messages is delivered as those
+   sub-messages, on the aggregate's message stream, timestamps shifted by
+   (aggregate timestamp - first sub timestamp) *)
+Lemma spec_deliver_agg_body csid msid ts subs :
+  Forall sub_ok subs ->
+  spec_deliver (mk_smsg csid aggregate_type msid ts (agg_body subs))
+  = Some (map (agg_norm csid msid ts (match subs with (m, _) :: _ => g_ts m | [] => 0 end)) subs).
+Proof.
+  intro Hok. unfold spec_deliver. cbn [g_type g_payload g_csid g_msid g_ts]. rewrite N.eqb_refl.
+  apply (spec_split_agg_body subs _ csid msid ts None Hok).
+  clear Hok. induction subs as [|[m id] subs IH]; [cbn; lia|].
+  cbn [agg_body]. unfold agg_sub. rewrite app_length. cbn [app length]. lia.
+Qed.
